@@ -48,6 +48,13 @@ def fixed_data(kt, n, seed, shape):
         v = [100 * i + t for i in range(g) for t in range(4)]
         while len(v) < n - 1: v.append(v[-1] + 1)
         v.append(min(top, v[-1] + r.randint(1000, 1 << (bits - 2))))
+    elif shape == 'dense_gap':     # dense runs (consecutive keys) separated by wide gaps: queries inside a gap exercise the clamp of the range at the next segment
+        v = []; x = r.randint(0, 100)
+        while len(v) < n:
+            for _ in range(r.randint(3, 7)):
+                v.append(min(x, top)); x += 1
+            x += r.choice([997, 100000, 1 << (bits - 4)])
+        v = v[:n]
     else:                          # 'steps': slopes that change abruptly
         v = []; x = r.randint(0, 1000); step = 1
         for i in range(n):
@@ -434,7 +441,16 @@ FX_E = e2e_fixed('e2e_fixed_u64_n80_e4_r4_s3', 'uint64_t', 80, 4, 4, 3, 'cluster
 FX_BIN = e2e_fixed('e2e_fixed_u64_n113_e1_r26_groups', 'uint64_t', 113, 1, 26, 1, 'groups', flt='double', timeout=1800)
 FX_H = e2e_fixed('e2e_fixed_u64_n32_e1_r1_dense_high', 'uint64_t', 32, 1, 1, 5, 'dense_high', flt='double')
 FX_HI = e2e_fixed('e2e_fixed_i64_n32_e1_r0_dense_high', 'int64_t', 32, 1, 0, 6, 'dense_high', flt='float', tiers=T, timeout=1800)
-JOBS['C07'] += [FX_A, FX_B, FX_C, FX_BIN]
+FX_G = e2e_fixed('e2e_fixed_u32_n28_e1_r1_dense_gap', 'uint32_t', 28, 1, 1, 9, 'dense_gap', tiers=T, timeout=1800)
+FX_G2 = e2e_fixed('e2e_fixed_u64_n28_e2_r0_dense_gap', 'uint64_t', 28, 2, 0, 10, 'dense_gap', flt='double', tiers=T, timeout=1800)
+JOBS['C07'] += [FX_A, FX_B, FX_C, FX_BIN, FX_G]
+JOBS['C01'] += [FX_G, FX_G2]
+JOBS['C02'] += [FX_G, FX_G2]
+JOBS['C14'] += [md_fixed('md_fixed_contains_n16_s2', 0, 16, 2, tiers=T)]     # md_fixed_contains_n24_s3 (24 points, coordinates 0..31): out of memory at 14 GB after 497 s - not a job
+# pending verdict: JOBS['C11'] += [mapped_fixed('mapped_fixed_u32_n40_dups_s5', 'uint32_t', dup_data('uint32_t', 40, 5), tiers=T)]
+JOBS['C05'] += [dyn_fixed('dyn_fixed_q_h24_s3', 0, 24, 3, tiers=T)]
+JOBS['C06'] += [dict(dyn_fixed('dyn_fixed_it_h24_s3', 1, 24, 3, tiers=T), recursion=[('F__ZN3pgm8internal9LoserTreeIhE11init_winnerERKh', 6)])]     # this history leaves more non-empty levels than s1: init_winner nests deeper
+JOBS['C15'] += [dyn_fixed('dyn_fixed_inv_h24_s3_i2', 2, 24, 3, idxl=2, tiers=T)]
 JOBS['C16'] += [e2e_fixed('frame_fixed_u32_n24_e1_r1_s6', 'uint32_t', 24, 1, 1, 6, 'clustered', extra=dict(WITH_FRAME=1, SNAP_MAX=512)),
                 e2e_fixed('frame_fixed_u32_n40_e1_r0_steps8', 'uint32_t', 40, 1, 0, 8, 'steps', extra=dict(WITH_FRAME=1, SNAP_MAX=512), tiers=T)]
 JOBS['C01'] += [FX_A, FX_D, FX_E, FX_H, FX_HI]
